@@ -108,7 +108,7 @@ class Grid:
         Grid
             Return a new Grid object with selected points
         """
-        if isinstance(index, int):
+        if isinstance(index, (int, np.integer)):
             return self.__class__(np.array([self.points[index]]), np.array([self.weights[index]]))
         else:
             return self.__class__(np.array(self.points[index]), np.array(self.weights[index]))
@@ -466,7 +466,7 @@ class OneDGrid(Grid):
         OneDGrid
             Return a new grid instance with a subset of points.
         """
-        if isinstance(index, int):
+        if isinstance(index, (int, np.integer)):
             return OneDGrid(
                 np.array([self.points[index]]),
                 np.array([self.weights[index]]),
